@@ -253,7 +253,7 @@ func TestC15(t *testing.T) {
 		h.Exhaustive("every backend call index x {error, panic} of the targeted sessions")
 	}
 
-	rapidCases(h, "faults", env.PerShard(env.Pick(1200, 24000)), genFaultSession, func(c faultCase) *fail {
+	rapidCases(h, "faults", env.PerShard(env.Pick(3000, 48000)), genFaultSession, func(c faultCase) *fail {
 		if c.FaultAt != 0 {
 			// replay of a single fault
 			return runFaultCase(c, nil)
